@@ -22,6 +22,19 @@ long vf_live_allocs(void);
 long vf_total_allocs(void);
 void vf_region_begin(void);
 long vf_region_end(void);
+// cooperative thread model (C11; rt/rt.h, rt/native_threads.cpp): std::threads are numbered 1.. in creation order, 0 = the harness thread.
+// A thread runs only inside vf_thread_run(i) (or a join), until its function returns or it blocks in std::condition_variable::wait.
+// states: 0 none, 1 not started, 2 parked (not notified), 3 parked and notified, 4 running (on the stack), 5 finished
+int vf_thread_count(void);
+int vf_thread_self(void);
+int vf_thread_state(int i);
+int vf_thread_detached(int i);
+int vf_thread_runnable(int i);      // state 1 or 3
+void vf_thread_run(int i);
+void vf_cond_pick(int mode);        // whom notify_one wakes among the parked threads: 0 lowest index, 1 highest index
+// lock discipline (C03 b): obj is protected by the std::mutex at lock from now on (symbolic build with -DVF_DISCIPLINE only)
+void vf_protect(void *obj, void *lock);
+void vf_unprotect_all(void);
 }
 #define VF_ASSERT(c, msg) __CPROVER_assert(!!(c), msg)
 #define VF_ASSUME(c) __CPROVER_assume(!!(c))
